@@ -141,7 +141,9 @@ fn execute(scn: &Scn, globals: &[SimGlobals], pristine: &[liquid::Object], expec
     info.steps = res.stats.steps;
     rep.distinct.push(Fnv::new().bytes(&res.trace).finish());
     if res.stats.replay_diverged {
-        return Err("replay diverged: the recorded schedule does not fit this execution".into());
+        // the recorded schedule named a task that could not run at that point (other code than the
+        // one it was recorded on?): the scheduler fell back to its first candidate; keep judging
+        rep.bump("replay_diverged", 1);
     }
     if let Some(a) = &res.abort {
         let (class, d) = match a {
@@ -344,7 +346,7 @@ fn search(scn: &Scn, rng: &mut Rng, n_sched: usize, rep: &mut RunReport, digest:
             let mut scratch = RunReport::default();
             let r = execute(scn, &p.globals, &p.pristine, &p.expected, Policy::Replay(info.trace.clone()), 0, &mut scratch, &mut again);
             rep.bump("replay_probe.executions", 1);
-            if r.is_err() || again.digest != info.digest || again.trace != info.trace {
+            if r.is_err() || again.digest != info.digest || again.trace != info.trace || scratch.counters.contains_key("replay_diverged") {
                 rep.bump("replay_probe.MISMATCH", 1);
             }
         }
@@ -401,7 +403,11 @@ impl Engine for C20 {
     fn replay(&self, scenario: &Json) -> Result<Option<Violation>, String> {
         let scn: Scn = serde_json::from_value(scenario.clone()).map_err(|e| format!("bad C20 scenario: {e}"))?;
         let mut rep = RunReport::default();
-        Ok(check_scn(&scn, &mut rep)?.map(|(class, detail)| Violation { signature: class.clone(), class, detail, scenario: scenario.clone() }))
+        let r = check_scn(&scn, &mut rep)?;
+        if rep.counters.get("replay_diverged").copied().unwrap_or(0) > 0 {
+            println!("note: the recorded schedule did not fit this build exactly (recorded on different code?); the scheduler filled the gaps with its first candidate");
+        }
+        Ok(r.map(|(class, detail)| Violation { signature: class.clone(), class, detail, scenario: scenario.clone() }))
     }
 
     fn minimise(&self, v: &Violation, deadline: Instant) -> Violation {
